@@ -279,7 +279,11 @@ def rule_d(ctx: Context, R: Reporter, gc: ClassInfo):
     if isinstance(first, ast.Name):
         from .c20 import chain_defs
 
+        from ..util import own_sum_normalisation
+
         for d in chain_defs(flow, rn, first.id):
+            if d.kind in ("aug", "assign") and d.stmt is not None and not d.path and own_sum_normalisation(ctx, m, d.stmt, d.node)[0] is True:
+                normalised = True
             if d.kind == "aug" and isinstance(d.value.op, ast.Div) and isinstance(d.value.value, ast.Call) and (ctx.res.external_name(m, d.value.value) or "") == "numpy.sum" and d.value.value.args and norm_text(d.value.value.args[0]) == first.id:
                 normalised = True
             if d.kind == "assign" and d.value is not None:
@@ -677,7 +681,7 @@ def _scale_memo_variant(with_reset: bool):
 
 
 def variants():
-    from ..variants import Variant, alpha_rename, delete_stmt, insert_after, replace_expr, replace_stmt
+    from ..variants import Variant, normalisation_twins, alpha_rename, delete_stmt, insert_after, replace_expr, replace_stmt
 
     cl = "tempest/cluster.py"
     H = "HierarchicalGaussianMixture"
@@ -695,6 +699,7 @@ def variants():
         Variant("c-children-overlap", "bad", replace_expr(cl, f"{H}.fit", "labels[i] == 1", "labels[i] >= 0"), ["C15.c"]),
         Variant("c-three-components", "bad", replace_expr(cl, f"{H}.fit", "GaussianMixture(n_components=2, covariance_type=self.covariance_type, n_init=self.n_init)", "GaussianMixture(n_components=3, covariance_type=self.covariance_type, n_init=self.n_init)"), ["C15.c"]),
         Variant("d-mstep-unnormalised", "bad", delete_stmt(cl, "GaussianMixture._m_step", "weights /= np.sum(weights)"), ["C15.d"], quick=True),
+        *normalisation_twins("d", cl, "GaussianMixture._m_step", "weights /= np.sum(weights)", "weights", True, ["C15.d"]),
         # a copy of the column sums is the column sums; a copy of something else is not
         Variant("d-benign-weights-copy-of-column-sums", "benign", replace_stmt(cl, "GaussianMixture._m_step", "weights = np.sum(weighted_resp, axis=0)", "resp_totals = np.sum(weighted_resp, axis=0)\nweights = resp_totals.copy()"), quick=True),
         Variant("d-benign-weights-nparray-of-column-sums", "benign", replace_stmt(cl, "GaussianMixture._m_step", "weights = np.sum(weighted_resp, axis=0)", "weights = np.array(np.sum(weighted_resp, axis=0), dtype=float)")),
